@@ -405,13 +405,23 @@ fn so3_check(bounds: Option<([f64; 4], f64)>, k: usize, tol: f64, rep: &mut Repo
 /// the conditional rotation-angle CDF (theta - sin theta)/(a - sin a) is compared at 15 fixed edges
 /// within 6 sigma, and no probability atom may sit on the cone boundary.
 fn so3_stream_audit(bounds: ([f64; 4], f64), seeds: u64, per_seed: usize, rep: &mut Report) {
+    so3_stream_audit_edited(bounds, None, seeds, per_seed, rep)
+}
+
+/// `edit`: the cone radius written into the public `bounds` field after construction (the region is what
+/// the space says NOW; a radius of pi or more means the whole group).
+fn so3_stream_audit_edited(bounds: ([f64; 4], f64), edit: Option<f64>, seeds: u64, per_seed: usize, rep: &mut Report) {
     use rand::SeedableRng;
     let spec = Spec::So3 { bounds: Some(bounds), frac: None };
     let (c, a) = bounds;
+    let a = edit.map(|r| r.min(PI)).unwrap_or(a);
     let angles: Vec<Result<Vec<f64>, String>> = (0..seeds)
         .into_par_iter()
         .map(|seed| {
-            let sp = So3::build(&spec);
+            let mut sp = So3::build(&spec);
+            if let Some(r) = edit {
+                sp.bounds.1 = r;
+            }
             guarded(|| {
                 let mut rng = rand::rngs::StdRng::seed_from_u64(seed);
                 (0..per_seed).map(|_| sp.sample_uniform(&mut rng).map(|s| so3_dist(&c, &[s.x, s.y, s.z, s.w])).unwrap_or(f64::NAN)).collect::<Vec<f64>>()
@@ -433,7 +443,7 @@ fn so3_stream_audit(bounds: ([f64; 4], f64), seeds: u64, per_seed: usize, rep: &
     rep.count("so3_stream_audits", 1);
     rep.count("so3_stream_samples", th.len() as u64);
     rep.count("evaluations", th.len() as u64);
-    let det = |extra: Value| json!({"space": spec.json(), "seeds": seeds, "samples_per_seed": per_seed, "more": extra});
+    let det = |extra: Value| json!({"space": spec.json(), "radius_written_into_the_public_field": edit, "seeds": seeds, "samples_per_seed": per_seed, "more": extra});
     if th.iter().any(|t| !t.is_finite() || *t > a + 2e-7) {
         viol(rep, "SO3|stream-audit|sample-outside-cone", "a streamed sample lies outside the cone or is not finite".into(), det(json!({})));
         return;
@@ -589,6 +599,10 @@ pub fn run(tier: &'static str) -> i32 {
         (Spec::So2 { bounds: None, frac: None }, 1, 4096, 64),
         (Spec::So2 { bounds: Some((-1.0, 2.5)), frac: None }, 1, 4096, 64),
         (Spec::So2 { bounds: Some((0.5, PI)), frac: None }, 1, 4096, 64),
+        // intervals requested beyond [-pi, pi] (stored clamped): the region is what is stored
+        (Spec::So2 { bounds: Some((-4.0, 4.0)), frac: None }, 1, 4096, 64),
+        (Spec::So2 { bounds: Some((-5.0, 1.0)), frac: None }, 1, 4096, 64),
+        (Spec::Se2 { weight: 0.5, bounds: Some(vec![(0.0, 1.0), (0.0, 1.0), (-3.5, 3.5)]) }, 3, 64, 8),
         (Spec::Cmp { parts: vec![Spec::Rv { dim: 2, bounds: Some(vec![(0.0, 4.0), (0.0, 4.0)]), frac: None }, Spec::So2 { bounds: None, frac: None }], weights: vec![1.0, 0.5] }, 3, 64, 8),
         (Spec::Cmp { parts: vec![Spec::So2 { bounds: Some((-1.0, 1.0)), frac: None }, Spec::Rv { dim: 1, bounds: Some(vec![(0.0, 1.0)]), frac: None }, Spec::So2 { bounds: None, frac: None }], weights: vec![1.0, 2.0, 0.1] }, 3, 64, 8),
         (Spec::Se2 { weight: 0.5, bounds: Some(vec![(0.0, 4.0), (-2.0, 2.0), (-PI, PI)]) }, 3, 64, 8),
@@ -649,6 +663,10 @@ pub fn run(tier: &'static str) -> i32 {
     // a mid-width cone with a million draws: the Haar law and the "uniform rotation vector" law
     // (theta/a)^3 differ by only 0.0093 a^2 in CDF there
     so3_stream_audit(([0.0, 0.0, 0.0, 1.0], 0.95), if thorough { 1024 } else { 256 }, 4000, &mut rep);
+    // a cone radius written into the public field after construction, beyond pi (the whole group) and below
+    so3_stream_audit_edited(([0.0, 0.0, 0.0, 1.0], 1.0), Some(4.0), seeds, if thorough { 2000 } else { 600 }, &mut rep);
+    so3_stream_audit_edited((rx, 2.0), Some(1.5 * PI), seeds, if thorough { 2000 } else { 600 }, &mut rep);
+    so3_stream_audit_edited(([0.0, 0.0, 0.0, 1.0], 2.0), Some(0.8), seeds, if thorough { 2000 } else { 600 }, &mut rep);
     // narrow cones (a dedicated small-angle sampler would live here): few draws, each costs thousands of attempts
     so3_stream_audit(([0.0, 0.0, 0.0, 1.0], 0.24), seeds, if thorough { 600 } else { 150 }, &mut rep);
     so3_stream_audit((rx, 0.15), seeds, if thorough { 300 } else { 80 }, &mut rep);
